@@ -45,6 +45,16 @@ SeqLess(a, b) ==      \* lexicographic order on terms
   ELSE IF Head(a) # Head(b) THEN LetterKey(Head(a)) < LetterKey(Head(b))
   ELSE SeqLess(Tail(a), Tail(b))
 
+\* regular expressions (Regex): a sequence of atoms <<letter code or 0 for any character, least, most repetitions
+\* (-1: unbounded)>>; as the code matches with re.match, the pattern has to match a *beginning* of the term
+RECURSIVE RxM(_, _, _, _)
+RxM(as, i, t, p) ==
+  IF i > Len(as) THEN TRUE
+  ELSE LET a == as[i]
+           most == IF a[3] < 0 \/ a[3] > Len(t) - p + 1 THEN Len(t) - p + 1 ELSE a[3]
+       IN \E n \in a[2] .. most : /\ \A k \in p .. p + n - 1 : a[1] = 0 \/ t[k] = a[1]
+                                  /\ RxM(as, i + 1, t, p + n)
+
 \* glob: letter code -1 is '?', -2 is '*', -3 is the character class [ab] (letter codes 1 and 2)
 RECURSIVE Glob(_, _)
 Glob(p, t) ==
@@ -225,6 +235,7 @@ Denote(idx, q) ==
                              /\ Len(t) >= Min2(q.prefix, Len(q.t))
                              /\ SubSeq(t, 1, Min2(q.prefix, Len(q.t))) = SubSeq(q.t, 1, Min2(q.prefix, Len(q.t)))},
                 q.b4)
+    [] q.op = "regex" -> TermsM(idx, q.f, {t \in Lexicon(idx, q.f) : RxM(q.atoms, 1, t, 1)}, q.b4)
     [] q.op = "termrange" -> TermsM(idx, q.f, {t \in Lexicon(idx, q.f) : TermInRange(t, q)}, q.b4)
     [] q.op = "numrange" ->
          Const({d \in Live(idx) : \E i \in DOMAIN Nums(idx, d, q.f) : InRange(Nums(idx, d, q.f)[i], q)},
@@ -243,7 +254,7 @@ RECURSIVE Scored(_)
 Scored(q) ==
   CASE q.op \in {"term", "every", "const", "null"} -> TRUE
     \* multi-term queries score a constant, the boost (constantscore=True is their default)
-    [] q.op \in {"prefix", "wildcard", "termrange", "numrange", "colq"} -> TRUE
+    [] q.op \in {"prefix", "wildcard", "termrange", "numrange", "colq", "regex"} -> TRUE
     [] q.op \in {"and", "or", "dismax"} -> \A i \in DOMAIN q.kids : Scored(q.kids[i])
     [] q.op \in {"andnot", "require"} -> Scored(q.a)
     [] q.op = "andmaybe" -> Scored(q.a) /\ Scored(q.b)
